@@ -5,7 +5,7 @@
    the value gnmi_history holds for that path. *)
 From Coq Require Import List NArith Bool Lia.
 From OC Require Import Base.Bytes Model.Merge Model.CfgStore Spec.Gnmi
-     Proofs.MergeProofs Proofs.PathProofs Proofs.CommitProofs Proofs.CommitPreserve Proofs.CommitHistory Proofs.PathAbstraction.
+     Proofs.MergeProofs Proofs.TextPathProofs Proofs.CommitProofs Proofs.CommitPreserve Proofs.CommitHistory Proofs.PathAbstraction.
 Import ListNotations.
 Open Scope N_scope.
 
